@@ -4,7 +4,7 @@ CONSTANTS
   GeoSets = {{1}, {4}}
   PolGeoSets = {{1, 4}}
   McMixed = {TRUE, FALSE}
-  McMoreSel = {}
+  McMoreSel = FALSE
   Kinds = {0, 3}
   CostBase = 3
   Den = 1
